@@ -72,10 +72,11 @@ func TestProp_RestartTakesEffect(t *testing.T) {
 		reachedSecond := 0
 		for k := 0; k < restarts; k++ {
 			// get into the second schedule
-			if !waitFor(f1, time.Since(base)-time.Nanosecond, 5*time.Second) {
-				// inconclusive: the runner never showed the second schedule (very loaded machine)
-				stats.AddNote("restart_cases_without_second_schedule", 1)
-				break
+			if since := time.Since(base); !waitFor(f1, since-time.Nanosecond, 5*time.Second) {
+				// "moving to the next schedule after its start delay": the delay is at most 70 ms, 5 s have passed
+				stats.Case("restart", desc, true, []string{"restart-issued"}, func() any { return map[string]any{"case": desc} })
+				rt.Fatalf("VERIF-VIOLATION C18: %d Restart(s) so far; 5 s after %s the runner had still not moved on to its second schedule (start delay %s)\ncase: %s",
+					k, since.Round(time.Millisecond), d1, desc)
 			}
 			reachedSecond++
 			time.Sleep(time.Duration(phaseUs) * time.Microsecond)
